@@ -11,10 +11,13 @@ TAG_SERVICES = (0x4C, 0x52, 0x4D, 0x53, 0x4E)
 
 
 class LogixDevice(devices.ControllerDevice):
+    obeys_capacity = True   # sizes every reply to the connection itself (an oversize reply from it is a harness bug, not the client's)
+
     def __init__(self, identity, rng, log, project, **kw):
         super().__init__(identity, rng, log, program_name=project.name, **kw)
         self.prj = project
         # target-chosen behaviours (seeded)
+        self.multi_lead_pad = rng.choice([0, 0, 0, 2, 4])   # bytes between a Multiple Service reply's offset table and its first reply
         self.page_mode = rng.choice(["all", "all", 1, 2, 3, "random"])
         self.tmpl_frag = rng.choice(["all", "all", "random", 1, 2, 3, 5, 8])
         self.read_frag = rng.choice(["full", "full", "random", "tiny"])
@@ -437,9 +440,16 @@ class LogixDevice(devices.ControllerDevice):
                 any_err = True
             replies.append(rep)
         out = n.to_bytes(2, "little")
-        o = 2 + 2 * n
+        # the offsets say where each reply starts: a target may leave room between the offset table and the first reply (e.g. to
+        # start the replies on a 4-byte boundary) - where a reply is, is what its offset says
+        lead = (4 - (2 + 2 * n) % 4) % 4 if self.multi_lead_pad == 2 else self.multi_lead_pad   # 2 = "align to 4", 4 = a fixed gap
+        if remaining < lead:
+            lead = 0
+        o = 2 + 2 * n + lead
         for r in replies:
             out += o.to_bytes(2, "little")
             o += len(r)
-        out += b"".join(replies)
+        out += bytes(lead) + b"".join(replies)
+        if lead:
+            self.log.c("multi-service-replies-with-room-after-the-offset-table")
         return (rt.ST_EMBEDDED if any_err else rt.ST_OK), (), out
